@@ -13,9 +13,12 @@
 //   {"e":"RoundTrip","text":T,"ok1":b,"cfg1":C,"printed":"...","ptoks":T',"ok2":b,"cfg2":C,"ret":R}
 //   {"e":"PrintParse","cfg":C,"printed":"...","ptoks":T',"ok2":b,"cfg2":C,"ret":R}
 // R is "ok" when the calls returned.  The calls run in a forked worker that records the beginning of the event, flushes,
-// calls the library, and then records the rest; when the worker dies (signal, sanitizer exit, 10 s alarm) the parent
-// completes the truncated event with ret = "sig<N>" / "exit<N>" / "timeout" and default fields, and forks a new worker
-// that resumes after the culprit.
+// calls the library, and then records the rest.  A signal raised inside the calls (SIGSEGV, SIGABRT of a failed
+// assertion, SIGBUS, SIGFPE, the 10 s SIGALRM) is caught and the worker jumps back out of the calls, completes the
+// truncated event with ret = "sig<N>" / "timeout" and default fields, and goes on (a process death per crash costs ~0.1 s,
+// and the pinned tree crashes on a third of the texts); after 500 such recoveries the worker is replaced by a fresh one.
+// When the worker dies nevertheless (sanitizer exit, a signal outside the calls) the parent completes the truncated
+// event with ret = "sig<N>" / "exit<N>" and forks a new worker that resumes after the culprit.
 #include <cstdio>
 #include <cstdlib>
 #include <cstring>
@@ -25,6 +28,7 @@
 #include <fstream>
 #include <unistd.h>
 #include <signal.h>
+#include <setjmp.h>
 #include <sys/wait.h>
 #include <sys/mman.h>
 #include <sys/resource.h>
@@ -269,15 +273,41 @@ static vector<string> text_of(long i)
   return t;
 }
 
+static sigjmp_buf recover;
+static volatile sig_atomic_t in_calls;
+static void on_signal(int sig)
+{
+  if (in_calls) siglongjmp(recover, sig);
+  signal(sig, SIG_DFL); raise(sig);      // not ours: die, the parent records it
+}
+
 static void worker(const char* path, long from)
 {
   out = fopen(path, "a");
-  long n = ncases();
+  struct sigaction sa; memset(&sa, 0, sizeof sa); sa.sa_handler = on_signal; sigemptyset(&sa.sa_mask); sa.sa_flags = SA_NODEFER;
+  int sigs[] = {SIGSEGV, SIGABRT, SIGBUS, SIGFPE, SIGILL, SIGALRM};
+  for (size_t k = 0; k < sizeof sigs / sizeof *sigs; ++k) sigaction(sigs[k], &sa, 0);
+  long n = ncases(); int recoveries = 0;
   for (long i = from; i < n; ++i)
     {
+      if (recoveries >= 500) { pg->next = i; fclose(out); _exit(4); }      // a fresh worker takes over at case i
       pg->next = i; alarm(10);
-      if (configs_mode) { pg->phase = 2; ev_printparse(lines[i]); }
-      else { vector<string> t = text_of(i); pg->phase = 0; ev_parse(t); pg->phase = 1; ev_roundtrip(t); }
+      int sig = sigsetjmp(recover, 1);
+      if (sig == 0)
+	{
+	  in_calls = 1;
+	  if (configs_mode) { pg->phase = 2; ev_printparse(lines[i]); }
+	  else { vector<string> t = text_of(i); pg->phase = 0; ev_parse(t); pg->phase = 1; ev_roundtrip(t); }
+	  in_calls = 0;
+	}
+      else
+	{
+	  // the calls of event pg->phase of case i did not return: complete the line, skip the rest of the case
+	  in_calls = 0; ++recoveries;
+	  if (sig == SIGALRM) fprintf(out, "%s,\"ret\":\"timeout\"}\n", rest_of(pg->phase));
+	  else fprintf(out, "%s,\"ret\":\"sig%d\"}\n", rest_of(pg->phase), sig);
+	  fflush(out);
+	}
     }
   pg->next = n; alarm(0);
   fclose(out);
@@ -328,6 +358,7 @@ int main(int argc, char** argv)
       if (waitpid(pid, &st, 0) < 0) { perror("waitpid"); return 3; }
       if (WIFEXITED(st) && WEXITSTATUS(st) == 0 && pg->next >= total) break;
       if (WIFEXITED(st) && WEXITSTATUS(st) == 2) return 2;
+      if (WIFEXITED(st) && WEXITSTATUS(st) == 4) { from = pg->next; continue; }
       // the worker died inside case pg->next, event pg->phase: complete the truncated line
       char ret[32];
       if (WIFSIGNALED(st)) { if (WTERMSIG(st) == SIGALRM) snprintf(ret, sizeof ret, "timeout"); else snprintf(ret, sizeof ret, "sig%d", WTERMSIG(st)); }
